@@ -27,6 +27,8 @@ def _flat(v, out):
         _flat(getattr(v.func, '__name__', ''), out)
         _flat(list(v.args), out)
         _flat(dict(v.keywords), out)
+    elif isinstance(v, pathlib.PurePath):
+        out.append(str(v))
     elif v is None or isinstance(v, (int, float, bool)):
         out.append(repr(v))
     else:
@@ -110,6 +112,7 @@ def install():
 # version of the per-module import lock so that a client waiting for another client's import is
 # parked by the simulator instead of blocking for real
 
+import pathlib
 import importlib.abc
 import importlib.machinery
 
